@@ -121,6 +121,9 @@ func (c *c01) terminal(x *Ctx, gs *pf.GameState) {
 // RunC01 explores the play grid with the chip-conservation oracle.
 func RunC01(rep *explore.Report, tier string) {
 	rep.Set("rule", "every reachable state of every configuration of the play grid under the full alphabet (expected table operation; every offered action with every amount argument); distinct_nontrivial = distinct closed hands (terminal states) whose settlement was checked")
+	if RunScenes(rep, tier, Visitors["C01"], GridOpts{Property: "C01"}) {
+		return
+	}
 	RunGrid(rep, PlayGrid(tier), Visitors["C01"], GridOpts{Property: "C01", CrossN: 97, MaxState: 3000000})
 	// the same oracle on genuinely uninterrupted objects (pure replay, no state cloning)
 	RunGrid(rep, ReplayGrid(tier), Visitors["C01"], GridOpts{Property: "C01", MaxState: 300000, Mode: "replay"})
